@@ -368,3 +368,17 @@ package alephium
 //@   ensures [sender-is-the-configured-token-bridge] err == nil ==> w != nil && old(len(chainConfig.Contracts.TokenBridge) == 64 && hexok(chainConfig.Contracts.TokenBridge)) && (forall i in 0..32 :: at32(w.tokenBridgeContractId, i) == old(unhex(chainConfig.Contracts.TokenBridge))[i])
 //@   ensures [wiring] err == nil ==> w.msgChan == messageEvents && w.obsvReqC == obsvReqC && w.isMainnet == isMainnet && w.blockPollerEnabled != nil && w.chainIndex != nil && w.client != nil
 //@   modifies *
+
+// handleEvents_ is written against two oracles, "is this block on the main chain now" and "the
+// header of this block"; C08's "at that moment" means they are the node's answers to a query
+// made at that moment. The wrapper that supplies them forwards to the node client and nothing
+// else (no caching, no fallback answer).
+//@ func (w *Watcher) handleEvents(ctx context.Context, logger *zap.Logger, client *Client, errC chan<- error, eventsC <-chan []*UnconfirmedEvent, heightC <-chan int32)
+//@   props C08 C09
+//@   assume-contract
+//@   closure [lit]#1:
+//@     delegates client.IsBlockInMainChain
+//@   end-closure
+//@   closure [lit]#2:
+//@     delegates client.GetBlockHeader
+//@   end-closure
